@@ -67,6 +67,8 @@ CHECKS = {
             {"name": "positions", "pkg": "pkg/verifstore", "harness": "store", "run": "^TestVerifC17Positions$", "shards": 8, "shards_thorough": 16},
             {"name": "fields", "pkg": "pkg/verifstore", "harness": "store", "run": "^TestVerifC17Fields$"},
             {"name": "oldformats", "pkg": "pkg/verifstore", "harness": "store", "run": "^TestVerifC17OldFormats$"},
+            # "a running pipeline is found again as one to be resumed": what a graceful shutdown leaves in the store
+            FLOW,
         ],
     },
     "C18": {
@@ -95,6 +97,9 @@ CHECKS = {
         "parts": [
             {"name": "errtrees", "pkg": "cmd/conduit/internal/verifc20", "harness": "c20", "run": "^TestVerifC20$", "shards": 8, "shards_thorough": 16},
             {"name": "callsites", "pkg": "cmd/conduit/internal/verifc20", "harness": "c20", "run": "^TestVerifC20Sites$"},
+            # the wrappers of the real engines between the failing node and the lifecycle service: a fatal cause stays fatal
+            # (the pipeline degrades) whatever path the error takes
+            FLOW,
         ],
     },
 }
